@@ -46,6 +46,18 @@ var commonAssumptions = []string{
 
 func init() {
 	register(&Def{
+		ID: "C06", Level: "exploration", MinSigs: 25,
+		Rule:        "an alternative keeper over the same stores registers the real fee controller and a test controller under ACTION_SWAP that records the coin it is handed, really swaps it through the bank against a pool account at a PRNG-chosen rate and sets destination amount and denom (second configuration: only the swap controller registered); PRNG-drawn action orders [], [fee], [swap], [fee,swap], [swap,fee], [swap,fee,swap], [fee,fee], [swap,swap] x amounts x rates x routes chosen for the FINAL denomination; the model folds the list: the swap controller must have seen exactly the running coin, fee credits must be floor on the running amount in the running denomination, the recorded bridge request must carry the last action's output coin, statistics get one entry (same denom) or two (changed denom); repeated identifiers and actions without controller must be refused. distinct = (order, registry configuration, route, denom changed?, rate)",
+		Assumptions: append([]string{"only two action identifiers exist in the enum, so 'any set of controllers' is the subsets of {fee, swap}"}, commonAssumptions...),
+		Run:         withLab(world.Config{}, CheckC06),
+	})
+	register(&Def{
+		ID: "C03", Level: "fault_enumeration", MinSigs: 100,
+		Rule:        "payload shapes = {CCTP, CCTP with caller, Hyperlane, internal} x {no fee, 1 fee, 5 fees} x {dust on the orbiter account, none}; for each shape a fault-free run on the alternative stack counts the calls at every injection site (bank SendCoins per fee, module-to-module sweep, CCTP DepositForBurn / WithCaller, warp Token and RemoteTransfer, bank Msg/Send, EventManager.Emit per event), then ONE run per (site, k-th call) - complete enumeration of single faults - plus the wrapped application returning an error acknowledgement before and after doing its work (thorough: ordered pairs of sites), each through the bare middleware (mode C) and through the real core MsgRecvPacket handler with the alternative stack installed in the IBC router (mode H); oracle: the wrapper recorded that the fault fired => acknowledgement present and not a success, and ledger, supply, statistics and orbiter store digest unchanged. Natural failures on the native wiring: blacklisted fee/internal recipient, paused token factory, burn limit, domain without messenger, unenrolled router, wrong-denom token, blocked recipient, insufficient escrow, non-burnable denom, gas paymaster without funds. A fault armed but not reached is inconclusive. distinct = (shape, fault, mode, outcome)",
+		Assumptions: append([]string{"faults are errors returned by dependencies, not crashes of the node; store-level write failures cannot be injected without touching the SDK", "exhaustive refers to single faults over the listed shapes and sites"}, commonAssumptions...),
+		Run:         withLab(world.Config{}, CheckC03),
+	})
+	register(&Def{
 		ID: "C05", Level: "exploration", MinSigs: 40,
 		Rule:        "PRNG-drawn successful transfers over all three routes with every attribute varied (CCTP: domain, mint recipient, with/without caller; Hyperlane: token, domain, recipient, custom hook none/noop/merkle, gas limit, max fee denom/amount, metadata; internal: recipient) x fee lists, executed (a) on an alternative keeper over the same stores whose bridge dependencies are wrapped by recorders: exactly one bridge call, of the route named by the protocol id, every request field equal to the payload field / post-action coin / orbiter address; (b) on the native wiring: the bridges' own typed events (DepositForBurn, EventSendRemoteTransfer, bank credit) must carry the same values. Complete matrix of (protocol id incl. numeric and out-of-range) x (attribute type) and action ids without controller: only matching pairs are executed. ReplaceDepositForBurn: recorded CCTP request = message fields with From = orbiter (random and real messages); a real deposit replaced with a harness-signed attestation succeeds on both wirings and CCTP's event carries the new values. distinct = (bridge site, route template, fee class) and matrix cells",
 		Assumptions: append([]string{"the alternative keeper duplicates the wiring of depinject.go (60 lines); the gap is closed by running every successful case on the native wiring too and requiring the same outcome"}, commonAssumptions...),
